@@ -160,7 +160,7 @@ def stock():
         os.rename(exe + '.tmp', exe)
         return exe
 
-def harness(name, sources, variant='fast', objs_from_repo=True, extra_cflags=(), extra_ld=(), includes_repo_c=()):
+def harness(name, sources, variant='fast', objs_from_repo=True, extra_cflags=(), extra_ld=(), includes_repo_c=(), repo_objs=None):
     """Build a codec harness: framework C file(s) + (optionally) repo objects.
     includes_repo_c: repo .c files that the harness #includes itself (their
     objects are then left out of the link)."""
@@ -170,7 +170,8 @@ def harness(name, sources, variant='fast', objs_from_repo=True, extra_cflags=(),
     if objs_from_repo:
         robjs = [o for o in objects(variant, False)
                  if os.path.basename(o)[:-2] + '.c' not in includes_repo_c
-                 and os.path.basename(o) != 'main.o']
+                 and os.path.basename(o) != 'main.o'
+                 and (repo_objs is None or os.path.basename(o)[:-2] in repo_objs)]
     key = _hash_files(srcs + robjs + sorted(glob.glob(os.path.join(SRC, '*.[ch]'))),
                       [variant, list(extra_cflags), list(extra_ld), list(includes_repo_c)])
     d = _dir('h-%s-%s' % (name, variant), key)
